@@ -1,13 +1,22 @@
 (* C08 - the firmware TDMA scheduler runs each item exactly in its scheduled frame. Statements only.
-   Model: Model/TdmaSched.v (tdma_sched.c, uint8/uint16/int16 arithmetic explicit, callbacks = pure functions of the item).
+   Model: Model/TdmaSched.v (tdma_sched.c, uint8/uint16/int16 arithmetic explicit; first 13 theorems: callbacks that do not touch the
+   scheduler = pure functions of the item; theorems c08_sp_*: callbacks that call tdma_schedule / tdma_sched_reset while execute runs).
    Vocabulary (Proofs/TdmaSchedSpec.v, literal 25 buckets x 8 items):
      wf st            25 buckets, 0 <= cur < 25, every bucket <= 8 items     cbs_ok st   no stored NULL callback
      bucket_due st d  the items due in d frames = bucket (cur + d) mod 25, in storing order
      op_ok o          OSched N it: 0 <= N < 25, cb <> NULL;  OSet N set p3: END_SET-terminated, N + number of END_FRAMEs < 25
      refines st m     for every d in 0..24, bucket_due st d is a permutation of the items with due-in = d of the multiset m
-   "callbacks that report success" = forall x, 0 <= rcf x (tdma_sched_execute tests rc < 0). *)
+   "callbacks that report success" = forall x, 0 <= rcf x (tdma_sched_execute tests rc < 0).
+   Re-entrant part (theorems c08_sp_*, Proofs/TdmaSchedSpawnP.v): tdma_sched_execute_sp / run_sp thread the scheduler through the callbacks;
+     callback 15 calls tdma_schedule(p2, child_of it) and callback 16 calls tdma_sched_reset() first, from inside execute; both return 0.
+     plain it       i_cb it <> 15 /\ i_cb it <> 16 (does not use the scheduler)      childlike it   2 <= i_cb it <= 9 (what child_of makes)
+     no16 it        i_cb it <> 16           all_st P st / all_op P o   every stored item / every item the operation schedules satisfies P
+     calls lg       the callbacks invoked, in order (log entries ECall); ESpawn N child rc = a callback called tdma_schedule(N, child) and got rc;
+                    EReset n = a callback called tdma_sched_reset() and n items were stored afterwards
+     spawn_phase rcf st xs   the callbacks xs invoked one after the other on the state their predecessors left (final state, log)
+     lift_x / lift_obs       an execute result / observation of the model without scheduler-using callbacks, read as one of the re-entrant model. *)
 From Coq Require Import ZArith List Permutation Sorted.
-From OBB Require Import Gen.FwSchedConst Model.TdmaSched Proofs.TdmaSchedSpec Proofs.TdmaSchedSortP Proofs.TdmaSchedP Proofs.TdmaSchedRefP Proofs.TdmaSchedHistP Proofs.TdmaSchedOriginP.
+From OBB Require Import Gen.FwSchedConst Model.TdmaSched Proofs.TdmaSchedSpec Proofs.TdmaSchedSortP Proofs.TdmaSchedP Proofs.TdmaSchedRefP Proofs.TdmaSchedHistP Proofs.TdmaSchedOriginP Proofs.TdmaSchedSpawnP.
 Import ListNotations.
 Open Scope Z_scope.
 
@@ -141,3 +150,122 @@ Theorem c08_nothing_else : forall (rcf : item -> Z) (c : Z) (ops : list op),
       exists a o b N, ops = a ++ o :: b /\ schedules o N it /\ 0 <= N < 25 /\ (N - advances b) mod 25 = d.
 Proof. exact nothing_else. Qed.
 Print Assumptions c08_nothing_else.
+
+(* ================= callbacks that schedule while tdma_sched_execute() runs ================= *)
+
+(* conservative extension: on ANY state (well-formed or not) and for ANY callback results, if the current bucket holds no item with
+   callback 15 / 16 the re-entrant execute is the execute of the theorems above (same state, same calls, same return value, same crashes) *)
+Theorem c08_sp_conservative : forall (rcf : item -> Z) (st : sched),
+  Forall (fun it => i_cb it <> 15 /\ i_cb it <> 16) (bucket_abs st (s_cur st)) ->
+  tdma_sched_execute_sp rcf st = lift_x (tdma_sched_execute rcf st).
+Proof. exact conservative. Qed.
+Print Assumptions c08_sp_conservative.
+
+(* the same for whole histories from any state that stores no such item, with operations that schedule none *)
+Theorem c08_sp_conservative_history : forall (rcf : item -> Z) (ops : list op) (st : sched),
+  all_st (fun it => i_cb it <> 15 /\ i_cb it <> 16) st -> Forall (all_op (fun it => i_cb it <> 15 /\ i_cb it <> 16)) ops ->
+  run_sp rcf st ops = (map lift_obs (fst (run rcf st ops)), snd (run rcf st ops)).
+Proof. exact run_conservative. Qed.
+Print Assumptions c08_sp_conservative_history.
+
+(* no history of valid operations - items with the scheduling callbacks 15 / 16 and ANY p2 (frame offset of the child) included, ANY
+   callback results - indexes outside an array, calls NULL or exhausts the fuel of the run loop (SXFuel, SXOOB, SXNull are mapped to
+   FOOB / FNull by step_sp); the state stays well-formed: no bucket ever holds more than 8 items *)
+Theorem c08_sp_no_crash : forall (rcf : item -> Z) (ops : list op) (st : sched),
+  wf st -> cbs_ok st -> Forall op_ok ops ->
+  exists os st', run_sp rcf st ops = (os, FOk st') /\ wf st' /\ cbs_ok st' /\ length os = length ops.
+Proof. exact run_sp_ok. Qed.
+Print Assumptions c08_sp_no_crash.
+
+(* the general shape of one call, any number of scheduling callbacks in the frame: the items present at entry are invoked in the
+   sorted order of c08_each_slot_once, each on the state its predecessors left (so each tdma_schedule done by a callback obeys
+   c08_overflow_reported on that state); what they appended to the running frame ([extra], items made by child_of) is invoked
+   afterwards in append order whatever its priority; the return value counts both; then the frame is cleared *)
+Theorem c08_sp_execute_shape : forall (rcf : item -> Z) (st : sched),
+  wf st -> cbs_ok st -> (forall x, 0 <= rcf x) ->
+  exists extra,
+    bucket_due (fst (spawn_phase rcf st (exec_order (bucket_due st 0)))) 0 = bucket_due st 0 ++ extra /\
+    Forall (fun it => 2 <= i_cb it <= 9) extra /\
+    tdma_sched_execute_sp rcf st =
+      SXOk (set_bucket (fst (spawn_phase rcf st (exec_order (bucket_due st 0)))) (s_cur st) [])
+           (snd (spawn_phase rcf st (exec_order (bucket_due st 0))) ++ map ECall extra)
+           (Z.of_nat (length (bucket_due st 0) + length extra)).
+Proof. exact execute_sp_shape. Qed.
+Print Assumptions c08_sp_execute_shape.
+
+(* same frame: any well-formed state (any ring position, any content of the other 24 frames), the current frame holds a callback-15
+   item sp with p2 = 0 at any slot among up to 6 other items of any priorities: tdma_schedule(0, child) answers 0, the child is invoked
+   in this very call, once, after every item that was in the frame at entry, with the parameters it was scheduled with; it is counted in
+   the return value; afterwards the frame is empty and no other frame has changed *)
+Theorem c08_sp_same_frame_child : forall (rcf : item -> Z) (st : sched) (l1 : list item) (sp : item) (l2 : list item),
+  wf st -> cbs_ok st -> (forall x, 0 <= rcf x) ->
+  bucket_due st 0 = l1 ++ sp :: l2 -> Forall plain l1 -> Forall plain l2 -> i_cb sp = 15 -> i_p2 sp = 0 ->
+  (length (bucket_due st 0) < 8)%nat ->
+  exists st' lg, tdma_sched_execute_sp rcf st = SXOk st' lg (Z.of_nat (length (bucket_due st 0)) + 1) /\
+    calls lg = exec_order (bucket_due st 0) ++ [child_of sp] /\
+    In (ESpawn 0 (child_of sp) 0) lg /\
+    bucket_due st' 0 = [] /\ s_cur st' = s_cur st /\ (forall d, 0 < d < 25 -> bucket_due st' d = bucket_due st d).
+Proof. exact same_frame_child. Qed.
+Print Assumptions c08_sp_same_frame_child.
+
+(* N frames ahead, 0 < N < 25, room in that frame: the child is stored behind what frame N holds, every other frame is unchanged, the
+   running frame is emptied, and the child is NOT invoked in this call (the calls are exactly the entry items) *)
+Theorem c08_sp_child_ahead : forall (rcf : item -> Z) (st : sched) (l1 : list item) (sp : item) (l2 : list item) (N : Z),
+  wf st -> cbs_ok st -> (forall x, 0 <= rcf x) ->
+  bucket_due st 0 = l1 ++ sp :: l2 -> Forall plain l1 -> Forall plain l2 -> i_cb sp = 15 -> i_p2 sp = N -> 0 < N < 25 ->
+  (length (bucket_due st N) < 8)%nat ->
+  exists st' lg, tdma_sched_execute_sp rcf st = SXOk st' lg (Z.of_nat (length (bucket_due st 0))) /\
+    calls lg = exec_order (bucket_due st 0) /\
+    In (ESpawn N (child_of sp) 0) lg /\
+    bucket_due st' 0 = [] /\ s_cur st' = s_cur st /\
+    bucket_due st' N = bucket_due st N ++ [child_of sp] /\
+    (forall d, 0 < d < 25 -> d <> N -> bucket_due st' d = bucket_due st d).
+Proof. exact child_ahead. Qed.
+Print Assumptions c08_sp_child_ahead.
+
+(* capacity: the target frame (N = 0: the running frame itself) already holds 8 items: the callback sees -1, the child is neither
+   stored nor run, nothing is overwritten - every other frame is exactly what it was, the running frame ran its entry items and is empty *)
+Theorem c08_sp_child_refused : forall (rcf : item -> Z) (st : sched) (l1 : list item) (sp : item) (l2 : list item) (N : Z),
+  wf st -> cbs_ok st -> (forall x, 0 <= rcf x) ->
+  bucket_due st 0 = l1 ++ sp :: l2 -> Forall plain l1 -> Forall plain l2 -> i_cb sp = 15 -> i_p2 sp = N -> 0 <= N < 25 ->
+  (length (bucket_due st N) >= 8)%nat ->
+  exists st' lg, tdma_sched_execute_sp rcf st = SXOk st' lg (Z.of_nat (length (bucket_due st 0))) /\
+    calls lg = exec_order (bucket_due st 0) /\
+    In (ESpawn N (child_of sp) (-1)) lg /\
+    bucket_due st' 0 = [] /\ s_cur st' = s_cur st /\
+    (forall d, 0 < d < 25 -> bucket_due st' d = bucket_due st d).
+Proof. exact child_refused. Qed.
+Print Assumptions c08_sp_child_refused.
+
+(* the firmware's pattern (prim_fbsb.c: tdma_sched_reset(); tdma_schedule(0, ...) from a running callback): the reset leaves exactly
+   the running frame, the child is still invoked in this very call, last; afterwards NO frame holds anything *)
+Theorem c08_sp_reset_then_child : forall (rcf : item -> Z) (st : sched) (l1 : list item) (sp : item) (l2 : list item),
+  wf st -> cbs_ok st -> (forall x, 0 <= rcf x) ->
+  bucket_due st 0 = l1 ++ sp :: l2 -> Forall plain l1 -> Forall plain l2 -> i_cb sp = 16 -> i_p2 sp = 0 ->
+  (length (bucket_due st 0) < 8)%nat ->
+  exists st' lg, tdma_sched_execute_sp rcf st = SXOk st' lg (Z.of_nat (length (bucket_due st 0)) + 1) /\
+    calls lg = exec_order (bucket_due st 0) ++ [child_of sp] /\
+    In (EReset (Z.of_nat (length (bucket_due st 0)))) lg /\ In (ESpawn 0 (child_of sp) 0) lg /\
+    s_cur st' = s_cur st /\ (forall d, 0 <= d < 25 -> bucket_due st' d = []).
+Proof. exact reset_then_same_frame_child. Qed.
+Print Assumptions c08_sp_reset_then_child.
+
+(* exactly once, on time, in histories whose callbacks schedule: an item held in slot k of the frame N < 25 ahead - put there by an
+   operation or by a callback (c08_sp_child_ahead: the child sits in slot length (bucket_due st N) of frame N) - is still in slot k
+   of the current frame after ANY valid operations [mid] with exactly N advances (executes of frames with callback-15 items included),
+   no reset (operation or callback 16: a reset erases other frames by design) and no execute after the N-th advance; the next
+   execute invokes the sorted entry items - slot k exactly once - followed by the items its callbacks appended, and empties the frame *)
+Theorem c08_sp_held_runs_on_time : forall (rcf : item -> Z) (s2 : sched) (N : Z) (k : nat) (it : item) (mid : list op),
+  wf s2 -> cbs_ok s2 -> all_st (fun x => i_cb x <> 16) s2 -> (forall x, 0 <= rcf x) -> 0 <= N < 25 ->
+  nth_error (bucket_due s2 N) k = Some it ->
+  Forall op_ok mid -> Forall (all_op (fun x => i_cb x <> 16)) mid -> advances mid = N -> ~ In OReset mid ->
+  (forall a b, mid = a ++ OExecute :: b -> advances a < N) ->
+  exists os s3 s4 lg extra,
+    run_sp rcf s2 mid = (os, FOk s3) /\
+    nth_error (bucket_due s3 0) k = Some it /\
+    tdma_sched_execute_sp rcf s3 = SXOk s4 lg (Z.of_nat (length (bucket_due s3 0) + length extra)) /\
+    calls lg = exec_order (bucket_due s3 0) ++ extra /\ Forall (fun x => 2 <= i_cb x <= 9) extra /\
+    count_occ Nat.eq_dec (slot_order (bucket_due s3 0)) k = 1%nat /\
+    bucket_due s4 0 = [].
+Proof. exact held_runs_on_time. Qed.
+Print Assumptions c08_sp_held_runs_on_time.
